@@ -210,13 +210,26 @@ func (mv mapValue) IndexValue(iv Value) Value {
 	mr := reflect.ValueOf(mv.value)
 	ir := reflect.ValueOf(iv.Interface())
 	kt := mr.Type().Key()
-	if ir.IsValid() && ir.Type().ConvertibleTo(kt) && ir.Comparable() {
+	if ir.IsValid() && keyConvertible(ir.Type(), kt) && ir.Comparable() {
 		er := mr.MapIndex(ir.Convert(kt))
 		if er.IsValid() {
 			return ValueOf(er.Interface())
 		}
 	}
 	return nilValue
+}
+
+// keyConvertible reports whether an index of type t can stand for a map key of type kt: a string for a
+// string key, a number for a numeric key (Go would also convert an integer to the string holding
+// that code point, which is no lookup at all).
+func keyConvertible(t, kt reflect.Type) bool {
+	if !t.ConvertibleTo(kt) {
+		return false
+	}
+	if kt.Kind() == reflect.String {
+		return t.Kind() == reflect.String
+	}
+	return true
 }
 
 func (mv mapValue) PropertyValue(iv Value) Value {
@@ -226,8 +239,8 @@ func (mv mapValue) PropertyValue(iv Value) Value {
 		return nilValue
 	}
 	var er reflect.Value
-	if ir.Type().AssignableTo(mr.Type().Key()) && ir.Comparable() {
-		er = mr.MapIndex(ir)
+	if kt := mr.Type().Key(); keyConvertible(ir.Type(), kt) && ir.Comparable() {
+		er = mr.MapIndex(ir.Convert(kt))
 	}
 	switch {
 	case er.IsValid():
